@@ -716,9 +716,10 @@ def _execute(env, bus, step, partial):
     if op == 'iloc_bool':
         return bus.iloc[np.array(step['mask'], dtype=bool)]
     if op == 'iloc':
-        return bus.iloc[step['pos']]
+        # (a position is as often a NumPy integer — the result of an argmax, an element of positions — as a Python int)
+        return bus.iloc[np.int64(step['pos']) if step['pos'] % 2 else step['pos']]
     if op == 'iloc_list':
-        return bus.iloc[list(step['positions'])]
+        return bus.iloc[list(step['positions']) if len(step['positions']) % 2 else np.array(step['positions'], dtype=np.int64)]
     if op == 'iloc_slice':
         return bus.iloc[slice(*step['slice'])]
     if op == 'head':
